@@ -364,6 +364,174 @@ def translate(file, impl, name, lean):
     return text
 
 
+class PZ(P):
+    """expression parser for zorder_cmp: values of the four coordinate fields are `Int`; `^`, `>>`, `&` act on
+    their 32-bit patterns; results of those operators are `Nat` patterns"""
+    VALUES = {"lhs_lat", "lhs_lon", "rhs_lat", "rhs_lon"}
+
+    def pat(self, e):
+        return f"(Tbx.Gen.pat32 {e})" if e in self.VALUES else e
+
+    def expr(self, minp=0):
+        lhs = self.unary()
+        while True:
+            op = self.peek()
+            if op not in self.PREC or self.PREC[op] < minp:
+                return lhs
+            self.next()
+            rhs = self.expr(self.PREC[op] + 1)
+            if op in ("^", "&", ">>", "<<", "|"):
+                lhs = f"({self.pat(lhs)} {self.LEAN[op]} {self.pat(rhs)})"
+            elif op in self.CMP:
+                lhs = f"({lhs} {self.LEAN[op]} {rhs})" if op in ("==", "!=") else f"(decide ({lhs} {self.LEAN[op]} {rhs}))"
+            else:
+                lhs = f"({lhs} {self.LEAN[op]} {rhs})"
+
+    def postfix(self, e):
+        while self.peek() == ".":
+            save = self.i
+            self.next()
+            f = self.next()
+            if f == "cmp" and self.peek() == "(":
+                self.next()
+                a = self.expr()
+                self.expect(")")
+                e = f"(compare {e} {a})"
+            elif f == "leading_zeros" and self.peek() == "(":
+                self.next()
+                self.expect(")")
+                e = f"(Tbx.Gen.leadingZeros32 {self.pat(e)})"
+            elif f in ("lat", "lon") and e in ("lhs", "rhs"):
+                e = f"{e}_{f}"
+            else:
+                self.i = save
+                raise Skip(f"zorder: postfix .{f}")
+        return e
+
+
+ORD = {"Greater": ".gt", "Less": ".lt", "Equal": ".eq"}
+
+
+def z_block(toks, env):
+    """statements; `if c { return e; }`; tail expression / `return e` / `match` / `if c { e } else { e }` -> Lean term"""
+    toks = list(toks)
+    if not toks:
+        raise Skip("zorder: empty block")
+    # strip `std :: cmp :: Ordering :: X` -> X marker
+    def strip_ord(ts):
+        out, i = [], 0
+        while i < len(ts):
+            if ts[i] == "std" and ts[i + 1:i + 7] == ["::", "cmp", "::", "Ordering", "::"] if False else False:
+                pass
+            if ts[i] == "Ordering" and i + 2 < len(ts) and ts[i + 1] == "::":
+                while out and out[-1] in ("::", "std", "cmp"):
+                    out.pop()
+                out.append("ORD_" + ts[i + 2])
+                i += 3
+            else:
+                out.append(ts[i])
+                i += 1
+        return out
+    toks = strip_ord(toks)
+
+    def find_close(ts, start):
+        depth = 0
+        for k in range(start, len(ts)):
+            if ts[k] in "({[":
+                depth += 1
+            elif ts[k] in ")}]":
+                depth -= 1
+                if depth == 0:
+                    return k
+        raise Skip("zorder: unbalanced")
+
+    def term(ts, env):
+        if not ts:
+            raise Skip("zorder: empty term")
+        if ts[0] == "return":
+            ts = ts[1:]
+            if ts and ts[-1] == ";":
+                ts = ts[:-1]
+            return term(ts, env)
+        if len(ts) == 1 and ts[0].startswith("ORD_"):
+            return ORD[ts[0][4:]]
+        if ts[0] == "let":
+            semi = next(k for k, t in enumerate(ts) if t == ";" and balanced(ts[:k]))
+            var = ts[1]
+            e = PZ(ts[3:semi], env).expr()
+            ln = var + "'"
+            env2 = dict(env)
+            env2[var] = ln
+            return f"let {ln} := {e}\n  " + term(ts[semi + 1:], env2)
+        if ts[0] == "if":
+            ob = next(k for k, t in enumerate(ts) if t == "{" and balanced(ts[1:k]))
+            cond = PZ(ts[1:ob], env).expr()
+            cb = find_close(ts, ob)
+            then = term(ts[ob + 1:cb], env)
+            rest = ts[cb + 1:]
+            if rest and rest[0] == "else":
+                eb = find_close(rest, 1)
+                els = term(rest[2:eb], env)
+                if rest[eb + 1:]:
+                    raise Skip("zorder: tokens after if/else")
+                return f"(if {cond} then {then} else {els})"
+            return f"(if {cond} then {then} else\n  {term(rest, env)})"
+        if ts[0] == "match":
+            ob = next(k for k, t in enumerate(ts) if t == "{" and balanced(ts[1:k]))
+            scrut = PZ(ts[1:ob], env).expr()
+            cb = find_close(ts, ob)
+            body, arms, k = ts[ob + 1:cb], [], 0
+            while k < len(body):
+                if not body[k].startswith("ORD_") or body[k + 1:k + 3] != ["=", ">"]:
+                    raise Skip("zorder: match arm " + " ".join(body[k:k + 4]))
+                pat_ = ORD[body[k][4:]]
+                k += 3
+                if body[k] == "{":
+                    e_end = find_close(body, k)
+                    arm = term(body[k + 1:e_end], env)
+                    k = e_end + 1
+                else:
+                    e_end = k
+                    depth = 0
+                    while e_end < len(body) and not (body[e_end] == "," and depth == 0):
+                        depth += body[e_end] in "({["
+                        depth -= body[e_end] in ")}]"
+                        e_end += 1
+                    arm = term(body[k:e_end], env)
+                    k = e_end
+                if k < len(body) and body[k] == ",":
+                    k += 1
+                arms.append(f"    | {pat_} => {arm}")
+            return f"(match {scrut} with\n" + "\n".join(arms) + ")"
+        if ts[-1] == ";":
+            ts = ts[:-1]
+        return PZ(ts, env).expr()
+
+    def balanced(ts):
+        d = 0
+        for t in ts:
+            d += t in "({["
+            d -= t in ")}]"
+        return d == 0
+
+    return term(toks, env)
+
+
+def translate_zorder():
+    src = open(os.path.join(REPO, "src/space_filling_curve.rs")).read()
+    params, ret, body = find_fn(src, None, "zorder_cmp")
+    if "lhs" not in params or "rhs" not in params:
+        raise Skip("zorder: parameter names")
+    # `std::cmp::Ordering::X`: tokenised as std :: cmp :: Ordering :: X
+    env = {"lhs": "lhs", "rhs": "rhs", "lhs_lat": "lhs_lat", "lhs_lon": "lhs_lon", "rhs_lat": "rhs_lat", "rhs_lon": "rhs_lon"}
+    body = re.sub(r"//[^\n]*", "", body)
+    t = z_block(tokenize(body), env)
+    return ("/-- two's complement pattern of an i32 value -/\n"
+            "def pat32 (x : Int) : Nat := (x % 4294967296).toNat\n\n"
+            "/-- generated from src/space_filling_curve.rs: zorder_cmp -/\n"
+            "def zorderCmp (lhs_lat lhs_lon rhs_lat rhs_lon : Int) : Ordering :=\n  " + t + "\n")
+
+
 def main():
     done, skipped, defs = [], {}, []
     for (file, impl, name, lean) in WHITELIST:
@@ -392,6 +560,15 @@ def main():
         done.append("ROTATED_COMPARATORS")
     except Skip as e:
         skipped["ROTATED_COMPARATORS"] = str(e)
+    # zorder_cmp: early returns, `.cmp(&x)`, a final `match` on an Ordering; i32 bit operations are taken on the
+    # two's complement patterns (pat32), comparisons on the signed values
+    try:
+        defs.append(translate_zorder())
+        done.append("zorder_cmp")
+    except Skip as e:
+        skipped["zorder_cmp"] = str(e)
+    except Exception as e:
+        skipped["zorder_cmp"] = f"{type(e).__name__}: {e}"
     text = ("/- GENERATED by tools/translate.py from /repo's current source on every check run. Do not edit. -/\n"
             "namespace Tbx.Gen\n\n"
             "/-- `u32::leading_zeros` -/\n"
